@@ -114,6 +114,38 @@ struct Out {
     }
 };
 
+// Crash guard for harnesses that call the library in-process: between guard_begin and guard_end a fatal signal (or the
+// alarm) records the current input as a case of kind "<kind>-crash" with a failing oracle line, closes the output files
+// and ends the run normally, so that the check reports the crashing input instead of a broken harness.
+static Out* g_guard_out = NULL;
+static std::string g_guard_kind, g_guard_payload, g_guard_key;
+static void guard_handler(int sig) {
+    if (g_guard_out && !g_guard_kind.empty()) {
+        std::string id = g_guard_out->add(g_guard_kind + "-crash", g_guard_payload);
+        g_guard_out->I(id, sig == SIGALRM ? "HANG" : "CRASH");
+        g_guard_out->P(id, "FAIL " + g_guard_key + (sig == SIGALRM ? " the call did not return within the time limit" : " the call crashed (signal " + std::to_string(sig) + ")"));
+        g_guard_out->close();
+    }
+    _exit(g_guard_out ? 0 : 3);
+}
+static inline void guard_begin(Out& out, const std::string& kind, const std::string& payload, const std::string& key, unsigned seconds = 120) {
+    static bool installed = false;
+    if (!installed) {
+        installed = true;
+        int sigs[] = {SIGSEGV, SIGBUS, SIGFPE, SIGABRT, SIGILL, SIGALRM};
+        for (int sg : sigs) signal(sg, guard_handler);
+    }
+    g_guard_out = &out;
+    g_guard_kind = kind;
+    g_guard_payload = payload;
+    g_guard_key = key;
+    alarm(seconds);
+}
+static inline void guard_end() {
+    alarm(0);
+    g_guard_kind.clear();
+}
+
 // Run f in a forked child with an alarm; its stdout text (written to the pipe through the FILE*
 // given) is returned.  Crash / timeout become the outcome strings "CRASH(sig)" / "HANG".
 static inline std::string in_child(std::function<void(FILE*)> f, unsigned seconds = 30) {
